@@ -296,3 +296,63 @@ Section Model.
   Definition fresh_str (srs : text) : text :=
     let u := o_upper W srs in if o_is_epsg W u then u else srs.
 End Model.
+
+(** * Oracle contracts assumed by the theorems (each validated on the run's texts by tools/props/c19.py) *)
+Record contracts (W : oracle) : Prop := mkContracts {
+  k_refl : forall a, o_peq W a a = true;
+  k_sym : forall a b, o_peq W a b = true -> o_peq W b a = true;
+  k_trans : forall a b c, o_peq W a b = true -> o_peq W b c = true -> o_peq W a c = true;
+  k_upper_idem : forall t, o_upper W (o_upper W t) = o_upper W t;
+  (* "EPSG:x".upper() still starts with "EPSG:" *)
+  k_epsg_upper : forall t, o_is_epsg W t = true -> o_is_epsg W (o_upper W t) = true;
+  (* f"EPSG:{n}" is upper case, starts with "EPSG:" and int() of its tail is n *)
+  k_etext : forall n, o_is_epsg W (o_epsg_text W n) = true /\ o_upper W (o_epsg_text W n) = o_epsg_text W n /\
+                      o_code W (o_epsg_text W n) = n;
+  (* pyproj keeps an authority string as its srs ... *)
+  k_prep_epsg : forall t r, o_is_epsg W (o_upper W t) = true -> o_prep W t = Some r -> r = t;
+  (* ... and reads it case-insensitively *)
+  k_prep_upper : forall t, o_is_epsg W (o_upper W t) = true -> o_prep W t = Some t ->
+                           o_prep W (o_upper W t) = Some (o_upper W t) /\ o_peq W t (o_upper W t) = true;
+  (* from_user_input(obj.srs).srs == obj.srs *)
+  k_prep_idem : forall t r, o_prep W t = Some r -> o_prep W r = Some r;
+  (* to_epsg of "EPSG:n" is n *)
+  k_toepsg_code : forall s, o_is_epsg W (o_upper W s) = true -> o_prep W s = Some s ->
+                            o_to_epsg W s = Some (o_code W (o_upper W s));
+  (* pyproj-equal objects are not identified with two different EPSG codes *)
+  k_toepsg_peq : forall a b n m, o_peq W a b = true -> o_to_epsg W a = Some n -> o_to_epsg W b = Some m ->
+                                 n <> 0 -> m <> 0 -> n = m
+}.
+
+Section Specs.
+  Variable W : oracle.
+
+  (** specifications that do not refer to objects made earlier in the history *)
+  Definition closed (s : spec) : bool :=
+    match s with SpInt _ | SpStr _ | SpDict _ | SpPyNew _ => true | _ => false end.
+
+  (** the srs of the pyproj object pyproj builds for a closed specification *)
+  Definition spec_srs (s : spec) : option text :=
+    match s with
+    | SpInt n => o_prep W (o_epsg_text W n)
+    | SpStr t | SpDict t | SpPyNew t => o_prep W t
+    | _ => None
+    end.
+
+  (** what [_make_crs] is called with *)
+  Definition spec_mspec (s : spec) (nid : Z) (srs : text) : mspec :=
+    match s with SpInt n => MInt n | SpStr t => MStr t | _ => MObj nid srs end.
+
+  (** operations whose cache key is a string *)
+  Definition strkey_op (o : op) : bool :=
+    match o with
+    | OpCRS (SpDict _) _ | OpCRS (SpPyNew _) _ | OpCRS (SpPy _) _ => false
+    | _ => true
+    end.
+
+  (** the [_str] every entry stored under the string key [t] has *)
+  Definition str_of_key (t : text) : text :=
+    if o_is_epsg W t then t else match o_prep W t with Some r => fresh_str W r | None => t end.
+
+  (** [_epsg] is unset or what pyproj reports for the object *)
+  Definition epsg_ok (v : crsv) : Prop := c_epsg v = Some 0 \/ c_epsg v = o_to_epsg W (c_srs v).
+End Specs.
